@@ -104,6 +104,27 @@ def check(rep, tier, seed):
         for c, a in zip(decs, dimpl):
             if a.startswith("panic"):
                 bad.append((C.codec_line(c), a, "panic in an unsafe decoding path"))
+    # (2b) the same paths at CONCRETE element types (monomorphic catalogue: the u8 test and the transmutes are type-directed,
+    # the dynamic route only ever instantiates them at the harness's own value type)
+    mono = []
+    for ty, n in (("(arr 1 bool)", 1), ("(arr 3 bool)", 3), ("(arr 2 i8)", 2), ("(arr 17 i8)", 17), ("(arr 2 (arr 1 u8))", 2),
+                  ("(arr 3 u16)", 3), ("(arr 0 u8)", 0), ("(arr 1 u8)", 1), ("(arr 33 u8)", 33), ("(box (arr 4 u8))", 4),
+                  ("(vec i8)", 3), ("(vec bool)", 3), ("(vec u8)", 3), ("(ll u8)", 3), ("(vec (arr 1 u8))", 2),
+                  ("(arc (arr 2 i8))", 2), ("(opt (arr 2 bool))", 2)):
+        for m in sorted(set([0, 1, max(0, n - 1), n, n + 1, 2 * n, 2 * n + 1])):
+            body = bytes(rng.choice([0, 1, 2, 127, 128, 255]) for _ in range(m))
+            for prefix in (_vu(m), _vu(2 * m), _vu(2 * m + 1), b""):       # unsigned length, zig-zag count, odd count, none
+                pre = b"\x01" if ty.startswith("(opt") else b""
+                mono.append((ty, (pre + prefix + body + b"\xee").hex()))
+    hl = [f"mdec {t} {h}" for t, h in mono]
+    mcases = [{"env": "-", "cmd": "dec", "ty": t, "hex": h} for t, h in mono]
+    mmod = C._run_codec_side(model, mcases, [C.codec_line(c) for c in mcases], wd, "mono.model", 8, 3000)
+    for prof, exe in (("release", harness), ("debug", hdebug)):
+        mimpl = C.run_sharded(exe, "static", hl, wd, "mono_" + prof, shards=8)
+        dis += [(l, f"{prof}: {a}", b) for l, a, b in zip(hl, mimpl, mmod) if a != b]
+        for l, a in zip(hl, mimpl):
+            if a.startswith("panic"):
+                bad.append((l, a, "panic in an unsafe decoding path"))
     # (3) thorough: the same paths and the dangling witness under Miri
     miri = "not run (quick tier)"
     if tier == "thorough":
@@ -120,7 +141,7 @@ def check(rep, tier, seed):
                                       "property as stated is refuted in the model (C19_refs_refuted) and by w_dangling_ref: known finding F15"])
     lines = [C.codec_line(c) for c in decs]
     rep.coverage.update({
-        "evaluations": len(verdicts) + 2 * len(decs), "distinct_nontrivial": len(set(lines)) + len(verdicts),
+        "evaluations": len(verdicts) + 2 * len(decs) + 2 * len(mono), "monomorphic_decode_cases": len(mono), "distinct_nontrivial": len(set(lines)) + len(verdicts),
         "rule": "a catalogue of client programs written under #![forbid(unsafe_code)]: a control (must compile), four "
                 "lifetime-escape witnesses (reference from try_read_ref outliving the context; table mutated while such a "
                 "reference is alive; bytes from read_bytes outliving the buffer; context outliving its input) that must be "
